@@ -1,7 +1,7 @@
 """Per-property description consumed by bin/check."""
 
 COMMON_TRUSTED = [
-    "Coq 8.16.1 kernel (coqc; coqchk in bin/coqchk-all); vm_compute used only in Examples / finite sweeps; no native_compute",
+    "Coq 8.16.1 kernel (coqc; re-checked by coqchk in the thorough tier); vm_compute used only in Examples / finite sweeps; no native_compute",
     "Extraction: ExtrOcamlBasic only (Extract Inductive bool/option/unit/list/prod/sumbool/sumor, Extract Inlined Constant fst/snd/andb/orb/negb); no Extract Constant of our own; OCaml 4.13.1; runner/run.ml trace parser",
     "Go harness (harness/): generators, overlay export files, canonicalisation, lib/vcheck.py diff",
     "gnet code is modelled by hand in coq/Model; the tie to /repo is the per-run correspondence (and the translators where listed)",
